@@ -248,20 +248,28 @@ theorem int_canon_idempotent_base8_fails :
 
 example : canonInt 10 = [49, 48] ∧ storeInt .int8 [] 4 (canonInt 10) = .ok 8 ∧ storeInt .int8 [] 4 (canonInt 8) = .error .Invalid := by decide
 
-/-- The true part for base 8: the values whose canonical string is a single octal digit (−7 … 7) are read back unchanged,
-    at every integer type, under every compiled range. -/
+/-- The true part for base 8, exactly: for an admissible value (inside the bounds and the range) the canonical string is read
+    back as that value if and only if it is a single octal digit with optional `-`, i.e. −7 ≤ v ≤ 7 — at every integer
+    type, under every compiled range.  (Two or more decimal digits read in base 8 denote a smaller number or contain
+    an `8` / `9`.) -/
 theorem int_canon_idempotent_base8_partial (t : IntTy) (range : List (Int × Int)) (hints : Nat) (v : Int)
     (hb : checkHints hints t.name = some 8) (hwf : PartsWF t.min t.max range)
-    (hlo : t.min ≤ v) (hhi : v ≤ t.max) (hin : InParts range v) (hsmall : -7 ≤ v ∧ v ≤ 7) :
-    storeInt t range hints (canonInt v) = .ok v :=
-  storeInt_canon_base8 t range hints v hb hwf hlo hhi hin (by omega)
+    (hlo : t.min ≤ v) (hhi : v ≤ t.max) (hin : InParts range v) :
+    storeInt t range hints (canonInt v) = .ok v ↔ (-7 ≤ v ∧ v ≤ 7) := by
+  rw [storeInt_canon_base8_iff t range hints v hb hwf hlo hhi hin]
+  omega
 
-/-- non-vacuity: int8 with a two-part range under OCTNUM, the values −7 and 0 -/
+/-- non-vacuity: int8 with a two-part range under OCTNUM, the values −7 and 0 are read back (⇐ used) … -/
 example : storeInt .int8 [(-128, -5), (0, 20)] 4 (canonInt (-7)) = .ok (-7) ∧ storeInt .int8 [(-128, -5), (0, 20)] 4 (canonInt 0) = .ok 0 :=
-  ⟨int_canon_idempotent_base8_partial .int8 _ 4 (-7) (by decide) (by simp only [PartsWF]; decide) (by decide) (by decide)
-      (by simp only [InParts]; decide) (by decide),
-   int_canon_idempotent_base8_partial .int8 _ 4 0 (by decide) (by simp only [PartsWF]; decide) (by decide) (by decide)
-      (by simp only [InParts]; decide) (by decide)⟩
+  ⟨(int_canon_idempotent_base8_partial .int8 _ 4 (-7) (by decide) (by simp only [PartsWF]; decide) (by decide) (by decide)
+      (by simp only [InParts]; decide)).mpr (by decide),
+   (int_canon_idempotent_base8_partial .int8 _ 4 0 (by decide) (by simp only [PartsWF]; decide) (by decide) (by decide)
+      (by simp only [InParts]; decide)).mpr (by decide)⟩
+/-- … and 17 (`17` is 15 in base 8) and 8 (`8` is refused) are not (⇒ used, contrapositive) -/
+example : ¬ storeInt .int8 [(-128, -5), (0, 20)] 4 (canonInt 17) = .ok 17 ∧ ¬ storeInt .uint64 [] 20 (canonInt 8) = .ok 8 :=
+  ⟨fun h => absurd ((int_canon_idempotent_base8_partial .int8 _ 4 17 (by decide) (by simp only [PartsWF]; decide) (by decide) (by decide)
+      (by simp only [InParts]; decide)).mp h) (by decide),
+   fun h => absurd ((int_canon_idempotent_base8_partial .uint64 [] 20 8 (by decide) trivial (by decide) (by decide) (Or.inl rfl)).mp h) (by decide)⟩
 
 /-- FULL STATEMENT for base 16 — false: the canonical string of 10 is `10`, which base 16 reads as 16. -/
 theorem int_canon_idempotent_base16_fails :
@@ -273,18 +281,24 @@ theorem int_canon_idempotent_base16_fails :
 
 example : storeInt .int8 [] 8 (canonInt 10) = .ok 16 ∧ storeInt .int8 [] 8 (canonInt (-100)) = .error .Bounds := by decide
 
-/-- The true part for base 16: the values whose canonical string is a single decimal digit (−9 … 9) are read back
-    unchanged, at every integer type, under every compiled range. -/
+/-- The true part for base 16, exactly: for an admissible value the canonical string is read back as that value if and only
+    if it is a single decimal digit with optional `-`, i.e. −9 ≤ v ≤ 9 — at every integer type, under every compiled range.
+    (A canonical string is always a lexical value of base 16, but two or more decimal digits denote a greater number there.) -/
 theorem int_canon_idempotent_base16_partial (t : IntTy) (range : List (Int × Int)) (hints : Nat) (v : Int)
     (hb : checkHints hints t.name = some 16) (hwf : PartsWF t.min t.max range)
-    (hlo : t.min ≤ v) (hhi : v ≤ t.max) (hin : InParts range v) (hsmall : -9 ≤ v ∧ v ≤ 9) :
-    storeInt t range hints (canonInt v) = .ok v :=
-  storeInt_canon_base16 t range hints v hb hwf hlo hhi hin (by omega)
+    (hlo : t.min ≤ v) (hhi : v ≤ t.max) (hin : InParts range v) :
+    storeInt t range hints (canonInt v) = .ok v ↔ (-9 ≤ v ∧ v ≤ 9) := by
+  rw [storeInt_canon_base16_iff t range hints v hb hwf hlo hhi hin]
+  omega
 
-/-- non-vacuity: uint64 with a two-part range under NUM64 | HEXNUM, the value 9; int8 under HEXNUM, the value −9 -/
+/-- non-vacuity: uint64 with a two-part range under NUM64 | HEXNUM, the value 9; int8 under HEXNUM, the value −9 (⇐ used) … -/
 example : storeInt .uint64 [(0, 5), (9, 2 ^ 64 - 1)] 24 (canonInt 9) = .ok 9 ∧ storeInt .int8 [] 8 (canonInt (-9)) = .ok (-9) :=
-  ⟨int_canon_idempotent_base16_partial .uint64 _ 24 9 (by decide) (by simp only [PartsWF]; decide) (by decide) (by decide)
-      (by simp only [InParts]; decide) (by decide),
-   int_canon_idempotent_base16_partial .int8 _ 8 (-9) (by decide) trivial (by decide) (by decide) (Or.inl rfl) (by decide)⟩
+  ⟨(int_canon_idempotent_base16_partial .uint64 _ 24 9 (by decide) (by simp only [PartsWF]; decide) (by decide) (by decide)
+      (by simp only [InParts]; decide)).mpr (by decide),
+   (int_canon_idempotent_base16_partial .int8 [] 8 (-9) (by decide) trivial (by decide) (by decide) (Or.inl rfl)).mpr (by decide)⟩
+/-- … and 2⁶³ at uint64 is not (⇒ used, contrapositive): its nineteen decimal digits read in base 16 overflow `strtoull` -/
+example : ¬ storeInt .uint64 [] 24 (canonInt (2 ^ 63)) = .ok (2 ^ 63) :=
+  fun h => absurd ((int_canon_idempotent_base16_partial .uint64 [] 24 (2 ^ 63) (by decide) trivial (by decide) (by decide) (Or.inl rfl)).mp h)
+    (by decide)
 
 end LyModel.Props.C03Base
